@@ -593,9 +593,14 @@ def bom_files(ck, pid):
     base = tlc.subdir("bom_%s" % pid)
     traces, meta = [], []
     r = rng(pid, "bom")
-    for vi, (bom, eol) in enumerate((("\ufeff", "\n"), ("\ufeff", "\r\n"), ("", "\r\n"))):
+    variants = (("\ufeff", "\n"), ("\ufeff", "\r\n"), ("", "\r\n")) + ((("NUL", "\n"),) if pid == "C07" else ())
+    for vi, (bom, eol) in enumerate(variants):
         vals = [G.gen_secret(r, c, 4, avoid=set(default_reserved_words)) for c in ("text", "md5", "type7")]
         lines = ["enable secret %s" % vals[0], "username bob password 5 %s" % vals[1], " key 7 %s" % vals[2]]
+        if bom == "NUL":
+            # a NUL character near the top (telnet captures end lines with CR NUL): still a text file, every secret is replaced
+            bom = ""
+            lines[2] = lines[2] + "\r\x00"
         ind, outd = os.path.join(base, "in%d" % vi), os.path.join(base, "out%d" % vi)
         os.makedirs(ind)
         with open(os.path.join(ind, "first.cfg"), "wb") as fh:
@@ -609,6 +614,7 @@ def bom_files(ck, pid):
                 ev.append({"ev": "exc", "what": "%d lines in, %d lines out" % (len(lines), len(outs))})
             else:
                 for ln, o, v in zip([bom + lines[0]] + lines[1:], outs, vals):
+                    ln, o = ln.replace("\r\x00", ""), o.replace("\r\x00", "")
                     w = ln.split(" ")
                     w = [x for x in w if x]
                     conc = {"words": w, "lead": ln[: len(ln) - len(ln.lstrip(" "))],
@@ -654,7 +660,7 @@ def run(pid, tier):
     if pid == "C08":
         traces, meta = files_workload(ck, pid)
         judge(ck, pid, traces, meta, "files")
-    if pid == "C09":
+    if pid in ("C09", "C07"):
         traces, meta = bom_files(ck, pid)
         judge(ck, pid, traces, meta, "file-entry")
     ck.rule = ("cases = abstract lines enumerated by TLC from the form table (distinct by form, alternatives, class, wrap, lead), "
